@@ -6,4 +6,4 @@ Extraction Language OCaml.
 Extraction "model.ml"
   Z.add Z.mul Z.sub Z.div_eucl Z.compare Z.of_nat
   run_vec run_vec_intcast run_segidx
-  run_cpq run_rw run_simple run_strided run_allot run_msizes run_mseq run_llo run_guards run_pipebuf run_cpqf run_qidx run_bq run_reduce run_dreduce run_hash run_sol run_buf run_fnode run_pull run_mon run_mon1 run_deque run_exc run_suspend run_suspconf run_once run_onceconf run_ets run_etsseq.
+  run_cpq run_rw run_simple run_strided run_allot run_msizes run_mseq run_llo run_guards run_car run_pipebuf run_cpqf run_qidx run_bq run_reduce run_dreduce run_hash run_sol run_buf run_fnode run_pull run_mon run_mon1 run_deque run_exc run_suspend run_suspconf run_once run_onceconf run_ets run_etsseq.
